@@ -95,7 +95,7 @@ class Executor(Ops2):
         except (TypeError, IndexError, AttributeError, KeyError, ValueError) as e:
             import traceback
             tb = traceback.format_exc().strip().splitlines()
-            self.end_path(st, 'engine-error', '%s: %s%s | %s' % (type(e).__name__, e, self.where(st), ' / '.join(x.strip() for x in tb[-6:-1])))
+            self.end_path(st, 'engine-error', '%s: %s%s | stack %s | %s' % (type(e).__name__, e, self.where(st), self.stack(st)[-6:], ' / '.join(x.strip() for x in tb[-4:-1])))
 
     def where(self, st):
         if not st.frames:
